@@ -1,16 +1,16 @@
 (* C14 — property theorems.  Only statements, each closed by [exact], each followed by
    Print Assumptions. *)
 From Coq Require Import ZArith QArith List Bool.
-From Centro Require Import Spec.MecSpec Proofs.MecProofs.
-Open Scope Q_scope.
+From Centro Require Import Model.HullFill Spec.MecSpec Spec.FeretSpec Spec.FillSpec
+  Proofs.MecProofs Proofs.FeretProofs Proofs.FillProofs.
 
 (* Full.  Soundness of the certificate checker that is run on the exact circle reconstructed from
    the implementation's output: the circle contains every pixel centre of S and no circle
    (any rational centre, any squared radius) that contains S is smaller. *)
 Theorem C14_mec_certificate : forall S s1 s2 s3 a1 a2 a3 cx cy R,
   mec_ok S s1 s2 s3 a1 a2 a3 cx cy R = true ->
-  (forall p, In p S -> d2q p cx cy <= R) /\
-  (forall ex ey rho, (forall p, In p S -> d2q p ex ey <= rho) -> R <= rho).
+  (forall p, In p S -> (d2q p cx cy <= R)%Q) /\
+  (forall ex ey rho, (forall p, In p S -> (d2q p ex ey <= rho)%Q) -> (R <= rho)%Q).
 Proof. exact mec_certificate. Qed.
 Print Assumptions C14_mec_certificate.
 
@@ -18,6 +18,50 @@ Print Assumptions C14_mec_certificate.
    same centre (so comparing the reported centre with the certified one is meaningful). *)
 Theorem C14_mec_unique : forall S s1 s2 s3 a1 a2 a3 cx cy R,
   mec_ok S s1 s2 s3 a1 a2 a3 cx cy R = true ->
-  forall ex ey rho, (forall p, In p S -> d2q p ex ey <= rho) -> rho <= R -> ex == cx /\ ey == cy.
+  forall ex ey rho, (forall p, In p S -> (d2q p ex ey <= rho)%Q) -> (rho <= R)%Q -> (ex == cx /\ ey == cy)%Q.
 Proof. exact mec_unique. Qed.
 Print Assumptions C14_mec_unique.
+
+(* Full.  The brute-force maximum Feret diameter (squared) that the implementation's value is
+   compared with is the largest squared distance between two pixels of the object. *)
+Theorem C14_feret_max_spec : forall S : list (Z * Z),
+  (forall p q, In p S -> In q S -> (sdist2 p q <= max_d2 S)%Z) /\
+  (S <> nil -> exists p q, In p S /\ In q S /\ sdist2 p q = max_d2 S).
+Proof. exact feret_max_spec. Qed.
+Print Assumptions C14_feret_max_spec.
+
+(* Partial.  A minimum width W = wn/wd accepted by the checker is the squared distance between two
+   parallel lines that enclose every pixel of S (u is their common normal), and no pair of
+   enclosing parallel lines one of which runs through an edge of the polygon H (whose vertices
+   are pixels of S) is closer.  Missing for the full statement "no enclosing pair of parallel
+   lines in ANY direction is closer": the rotating-calipers lemma that the width of a finite point
+   set, as a function of the direction, attains its minimum at the normal of a hull edge. *)
+Theorem C14_feret_min_strip_partial : forall S H a b wn wd,
+  feret_min_ok S H a b wn wd = true ->
+  (0 < wd)%Z /\
+  (exists u lo hi, u <> (0, 0)%Z /\ Strip S u lo hi /\
+                   ((hi - lo) * (hi - lo) * wd = wn * (fst u * fst u + snd u * snd u))%Z) /\
+  (forall a' b', In (a', b') (edges H) ->
+     In a' S /\ In b' S /\
+     exists u lo hi, u <> (0, 0)%Z /\ Strip S u lo hi /\ (lo = fst u * fst a' + snd u * snd a')%Z /\
+                     (lo = fst u * fst b' + snd u * snd b')%Z /\
+                     (wn * (fst u * fst u + snd u * snd u) <= (hi - lo) * (hi - lo) * wd)%Z).
+Proof. exact feret_min_strip. Qed.
+Print Assumptions C14_feret_min_strip_partial.
+
+(* Full.  Soundness of the fill checker run on the implementation's output: the rows are pairwise
+   distinct and are exactly the lattice points (i,j) inside or on the polygon H of some object,
+   carrying that object's label l. *)
+Theorem C14_fill_checker_sound : forall objs out,
+  fill_ok objs out = true ->
+  NoDup out /\
+  forall i j l, In (i, j, l) out <-> exists H, In (l, H) objs /\ inside H (i, j) = true.
+Proof. exact fill_checker_sound. Qed.
+Print Assumptions C14_fill_checker_sound.
+
+(* Full (row level of the scan-line model).  The columns emitted for a run are exactly the integers
+   between the exact rational intersections n0/d0 and n1/d1 of the two bounding edges. *)
+Theorem C14_fill_run_exact : forall n0 d0 n1 d1 j, (0 < d0)%Z -> (0 < d1)%Z ->
+  (In j (run_js n0 d0 n1 d1) <-> (n0 <= j * d0 /\ j * d1 <= n1)%Z).
+Proof. exact run_js_spec. Qed.
+Print Assumptions C14_fill_run_exact.
